@@ -88,6 +88,31 @@ def findings_of(res_sx):
     return []
 
 
+SINK_CODE_FILE = "program_analysis/src/side_effect_analysis.rs"
+SINK_CODE_FROM = "let signal_decls = cfg"
+SINK_CODE_TO = "let mut reports = ReportCollection::new();"
+# sha256 of the sink computation of run_side_effect_analysis (comments and white space removed) at the
+# commit whose statements harness/src/bin/taint.rs transcribes (side_effect_analysis.rs:254-339)
+SINK_CODE_SHA256 = "0212c9766e4020a6c6cd9e99a7f434e6b90fa7b9038a53f4ae9ac47dd7fe74cf"
+
+
+def sink_code_digest():
+    """The text of the real sink computation (the part of run_side_effect_analysis between the two
+    marker statements), comments and white space removed, hashed. The sink set is a local variable of
+    the real pass; the harness transcribes these statements. Any change of them makes the transcription
+    stale, whether or not a generated program shows a difference."""
+    import hashlib
+    import re
+    try:
+        text = open(os.path.join(common.REPO, SINK_CODE_FILE)).read()
+        a = text.index(SINK_CODE_FROM, text.index("pub fn run_side_effect_analysis"))
+        b = text.index(SINK_CODE_TO, a)
+    except (OSError, ValueError) as e:
+        return "unreadable: %s" % e
+    code = re.sub(r"//[^\n]*", "", text[a:b])
+    return hashlib.sha256(re.sub(r"\s+", "", code).encode()).hexdigest()
+
+
 def sink_consistency(res_sx):
     """The sink set printed by the harness is a transcription (side_effect_analysis.rs keeps its own in a
     local variable). This ties it to the REAL reports on the implementation side alone, without the model:
@@ -412,6 +437,8 @@ def merge(acc, res, base, progs, keep_samples):
             d[a] = d.get(a, 0) + b
     for k in ("disagreements", "failing", "unmapped", "corpus_fail", "wf_fail", "ssa_fail", "sink_incons", "control_fail"):
         acc.setdefault(k, []).extend(res[k][:50])
+    for k in ("ssa_fail", "sink_incons", "control_fail", "corpus_fail"):
+        acc["n_" + k] = acc.get("n_" + k, 0) + len(res[k])
     acc["n_disagreements"] = acc.get("n_disagreements", 0) + len(res["disagreements"])
     acc["n_failing"] = acc.get("n_failing", 0) + len(res["failing"])
     sample = acc.setdefault("sample", [])
@@ -477,17 +504,22 @@ def finish(ctx, proofs, res, feats, alph, nval, nrep):
                           no_input=True)
         elif res["ssa_fail"]:
             ctx.violation("hypothesis of C09_location_is_unique_definition is false on %d dumped cfgs (SsaCheck.ssa_check with the "
-                          "implementation's dominator tree / nodup_v (all_defs g))" % len(res["ssa_fail"]),
+                          "implementation's dominator tree / nodup_v (all_defs g))" % res["n_ssa_fail"],
                           {"broken": "hypothesis ssa_check / unique definitions of props/C09.v (location theorems)", "first": res["ssa_fail"][0]},
                           no_input=True)
         elif res["sink_incons"]:
             ctx.violation("the sink set transcribed in harness/src/bin/taint.rs no longer explains the real reports of "
-                          "run_side_effect_analysis on %d definitions (the real sink set changed)" % len(res["sink_incons"]),
-                          {"broken": "transcription of the sink set (side_effect_analysis.rs:285-339) vs the real CS0008 reports",
+                          "run_side_effect_analysis on %d definitions (the real sink set changed)" % res["n_sink_incons"],
+                          {"broken": "transcription of the sink set (side_effect_analysis.rs:254-339) vs the real CS0008 reports",
                            "first": res["sink_incons"][0]}, no_input=True)
+        elif sink_code_digest() != SINK_CODE_SHA256:
+            ctx.violation("the statements of run_side_effect_analysis that compute the sink set (%s, `%s` .. `%s`) differ from the ones "
+                          "harness/src/bin/taint.rs transcribes; the printed sink set is stale" % (SINK_CODE_FILE, SINK_CODE_FROM, SINK_CODE_TO),
+                          {"broken": "transcription of the sink set in harness/src/bin/taint.rs (pinned by SINK_CODE_SHA256 in lib/props/C09.py)",
+                           "digest_now": sink_code_digest(), "digest_transcribed": SINK_CODE_SHA256}, no_input=True)
         elif res["control_fail"]:
             ctx.violation("sink probes: %d control programs (value reaches no effect) are no longer flagged: the real sink set or taint "
-                          "relation grew; first: %s: %s" % (len(res["control_fail"]), res["control_fail"][0]["corpus"], res["control_fail"][0]["problem"]),
+                          "relation grew; first: %s: %s" % (res["n_control_fail"], res["control_fail"][0]["corpus"], res["control_fail"][0]["problem"]),
                           {"broken": "sink set differential (control probes of lib/c09probe.py)", "first": res["control_fail"][0]}, no_input=True)
         elif res["unmapped"]:
             ctx.violation("oracle could not map %d findings to an assignment of the source" % len(res["unmapped"]),
@@ -519,10 +551,11 @@ def finish(ctx, proofs, res, feats, alph, nval, nrep):
         "disagreements_model_vs_impl": res["n_disagreements"],
         "false_claims_found": res["n_failing"],
         "hypothesis_ssa_wf_b_false_on": len(res["wf_fail"]),
-        "hypothesis_ssa_check_or_unique_defs_false_on": len(res["ssa_fail"]),
-        "sink_transcription_inconsistent_with_real_reports_on": len(res["sink_incons"]),
+        "hypothesis_ssa_check_or_unique_defs_false_on": res["n_ssa_fail"],
+        "sink_transcription_inconsistent_with_real_reports_on": res["n_sink_incons"],
+        "sink_code_digest_matches_transcription": sink_code_digest() == SINK_CODE_SHA256,
         "sink_probes": {"programs": alph.get("probe", 0), "sink_probe_claims_about_effectful_values": len([c for c in res["corpus_fail"] if c["corpus"].startswith("probe")]),
-                        "control_probes_not_flagged": len(res["control_fail"])},
+                        "control_probes_not_flagged": res["n_control_fail"]},
         "open_statements": OPEN_STATEMENTS,
     })
     ctx.assumptions += ASSUMPTIONS
